@@ -48,7 +48,15 @@ func genC12(g *gen, seed int64) *Program {
 		r.Call = exact
 		r.Expect = "own"
 		if g.p(0.55) {
-			switch g.pick(18) {
+			switch g.pick(22) {
+			case 18:
+				r.Call, r.Expect = "/extra"+exact, "none" // a segment in front of a registered name
+			case 19:
+				r.Call, r.Expect = "/a/b"+exact, "none"
+			case 20:
+				r.Call, r.Expect = "/"+r.Svc+"/x/"+r.Meth, "none" // a segment in the middle
+			case 21:
+				r.Call, r.Expect = exact+exact, "none" // the name twice
 			case 0:
 				r.Call, r.Expect = r.Svc+"/"+r.Meth, "own" // missing leading slash is tolerated
 			case 1:
